@@ -2,7 +2,10 @@
 
 package stack
 
-import "fmt"
+import (
+	"fmt"
+	"io"
+)
 
 // C15 — pointer pseudo-names. nameArguments (closure, map[uint64]object with
 // symbolic keys, two map ranges in any order, sort.Sort) is executed from SSA.
@@ -208,9 +211,15 @@ func VH_C06_PrefixDeterministic(np, n1, n2 int) {
 // VH_C15_Gate: with naming off no argument carries a name, whatever the other
 // options are; with naming on the repeated pointer is named.
 //
+// tail: 0 = the stream ends after the dump; 1 = the dump continues with a
+// malformed goroutine (the snapshot comes back together with a parse error);
+// 2 = the reader fails with an error other than EOF. The snapshot returned is
+// named (or not) all the same.
+//
 //verif:prop C15
 //verif:param opt 0..3
-func VH_C15_Gate(opt int) {
+//verif:param tail 0..2
+func VH_C15_Gate(opt, tail int) {
 	root := vTempRoot()
 	vSetFile(root + "/unrelated")
 	opts := &Opts{LocalGOROOT: root + "/goroot", LocalGOPATHs: []string{root + "/gopath"}}
@@ -223,11 +232,17 @@ func VH_C15_Gate(opt int) {
 		opts.NameArguments = true
 	}
 	dump := []byte("goroutine 1 [running]:\nmain.f(0xc000012340, 0xc000012340)\n\t/x/a.go:1 +0x1\n\ngoroutine 2 [running]:\nmain.g(0xc000012340)\n\t/x/a.go:2 +0x1\n\n")
-	s, _, _ := ScanSnapshot(&vhFeeder{data: dump}, &vhSink{}, opts)
+	if tail == 1 {
+		dump = append(dump, []byte("goroutine 3 [running]:\njunk\n")...)
+	}
+	s, _, err := ScanSnapshot(&vhFeeder{data: dump, failure: tail == 2}, &vhSink{}, opts)
 	vReach("scanned with options")
-	vAssert(s != nil && len(s.Goroutines) == 2, "dump parsed")
+	vAssert(s != nil && len(s.Goroutines) >= 2, "dump parsed")
 	if s == nil {
 		return
+	}
+	if tail != 0 {
+		vAssert(err != nil && err != io.EOF, "the snapshot comes back together with an error")
 	}
 	for _, g := range s.Goroutines {
 		for _, c := range g.Stack.Calls {
